@@ -151,7 +151,7 @@ def run(chk, replay=None):
 
     # ---------------------------------------------------------------- traces with captured simulated catalogs
     traces, results, metas = [], [], []
-    for t in range(30 if quick else 250):
+    for t in range(30 if quick else 1500):
         nc = rng.choice([2, 3, 8, 25])
         nb = rng.choice([1, 2, 4])
         kind = ['BLL', 'BLLS', 'BRIER'][t % 3]
